@@ -16,7 +16,7 @@
 From Avfs Require Import Base PathModel PathSpec PathProofs PathCleanProofs PathIterProofs.
 From Coq Require Import Permutation.
 From Avfs Require Import MemFS MemFile World Posix Inv WalkBridge WalkSym WalkBudget WalkReadlink WalkRel StepEq WalkInv StepInv
-  HeapEq HeapEqSnap StepRename StepRenameDir StepHist StepCwd StepMkdirAll StepHistM.
+  HeapEq HeapEqSnap StepRename StepRenameDir StepHist StepCwd StepMkdirAll StepHistM StepRemoveAll StepRemoveAllEx.
 
 Theorem C01_step_stat : forall (s : fsys) (sv : sview) (cs : list str),
   step_hyps s sv -> path_ok s sv SlStat cs ->
@@ -376,3 +376,64 @@ Example C01_history_inv_m_example :
   /\ Inv (fst (impl_run StepExamples.w_tree StepHistMExamples.hm))
   /\ links_ok (f_heap (w_fs (fst (impl_run StepExamples.w_tree StepHistMExamples.hm)))).
 Proof. exact StepHistMExamples.hm_inv. Qed.
+
+(* ---- RemoveAll --------------------------------------------------------------------------------------------------------------------- *)
+(* RemoveAll "/w/cl" by the administrator on a state of C05, for every outcome of the walk (a missing path, an error, a
+   file, a link, an empty or a non-empty directory): the same answer, and final file systems that agree on every node
+   except link nodes that no directory lists any more ([geq]: MemFS delete()s every node of the subtree - a link's target
+   is blanked -, the specification unlinks the top entry and drops the subtree, leaving unlisted links as they are).
+   The heaps are NOT equal in general ([C01_remove_all_example], third clause). *)
+Theorem C01_step_remove_all : forall (s : fsys) (sv : sview) (w : list str) (cl : str),
+  step_hyps s sv -> Inv_heap (f_heap s) -> sym_single (f_heap s) -> path_ok s sv SlLstat (w ++ [cl]) ->
+  let p := abs_path (w ++ [cl]) in
+  proj_res Linux (snd (remove_all s (sv_view sv) p)) = snd (go_remove_all s sv p)
+  /\ fsys_geq (fst (remove_all s (sv_view sv) p)) (fst (go_remove_all s sv p))
+  /\ (forall i, nkind (get (f_heap (fst (go_remove_all s sv p))) i) = nkind (get (f_heap s) i)).
+Proof. exact step_remove_all. Qed.
+
+(* the heart: MemFS's recursion (entry by entry, depth first) is simulated by the specification's drop of the subtree *)
+Theorem C01_remove_all_tree : forall (h : heap) (u : user) (par c : nat) (cl : str),
+  us_admin u = true -> (forall d, ~ dreachp h d d) -> sym_single h -> InvConseq.maxlen h c (S (length h)) ->
+  In (cl, c) (children h par) -> node_is_dir h c = true ->
+  exists hi', remove_all_rec (S (length h)) h u c = (hi', None)
+    /\ geq (delete_node (remove_child hi' par cl) c) (drop_tree (S (length h)) (remove_child h par cl) c)
+    /\ get hi' par = get h par.
+Proof. exact top_sim. Qed.
+
+(* [geq] heaps have the same snapshot, and every walk gives the same result on both *)
+Theorem C01_geq_snapshot : forall (wi ws : world) (vi : nat),
+  geq (f_heap (w_fs wi)) (f_heap (w_fs ws)) -> w_views wi = w_views ws ->
+  (forall v, nth_error (w_views ws) vi = Some v -> node_is_dir (f_heap (w_fs ws)) (v_root v) = true) ->
+  snapshot wi vi = snapshot ws vi.
+Proof. exact geq_snapshot. Qed.
+
+Theorem C01_geq_search : forall (si ss : fsys) (v : view) (p : str) (slm : slmode),
+  fsys_geq si ss -> f_vols ss = [] -> get (f_heap si) (v_root v) = get (f_heap ss) (v_root v) ->
+  search_node si v p slm = search_node ss v p slm.
+Proof. exact search_node_geq. Qed.
+
+(* one step of the two step functions: equal answers, [geq] file systems, equal snapshots *)
+Theorem C01_step_world_remove_all : forall (w : world) (vi : nat) (sw : sworld) (ww : list str) (cl : str),
+  absw w vi sw -> step_hyps (sw_fs sw) (sw_sv sw) -> Inv_heap (f_heap (sw_fs sw)) -> sym_single (f_heap (sw_fs sw)) ->
+  path_ok (sw_fs sw) (sw_sv sw) SlLstat (ww ++ [cl]) ->
+  let c := CRemoveAll vi (abs_path (ww ++ [cl])) in
+  snd (impl_step_proj w c) = snd (spec_step true sw c)
+  /\ fsys_geq (w_fs (fst (impl_step_proj w c))) (sw_fs (fst (spec_step true sw c)))
+  /\ sw_sv (fst (spec_step true sw c)) = sw_sv sw
+  /\ snapshot (fst (impl_step_proj w c)) vi = snapshot (with_fs w (sw_fs (fst (spec_step true sw c)))) vi.
+Proof. exact step_world_remove_all. Qed.
+
+Example C01_remove_all_example :
+  (snd (impl_step_proj StepExamples.w_tree StepRemoveAllExamples.ra) = snd (spec_step true StepExamples.sw_tree StepRemoveAllExamples.ra)
+   /\ fsys_geq (w_fs (fst (impl_step_proj StepExamples.w_tree StepRemoveAllExamples.ra)))
+               (sw_fs (fst (spec_step true StepExamples.sw_tree StepRemoveAllExamples.ra)))
+   /\ sw_sv (fst (spec_step true StepExamples.sw_tree StepRemoveAllExamples.ra)) = sw_sv StepExamples.sw_tree
+   /\ snapshot (fst (impl_step_proj StepExamples.w_tree StepRemoveAllExamples.ra)) 0
+      = snapshot (with_fs StepExamples.w_tree (sw_fs (fst (spec_step true StepExamples.sw_tree StepRemoveAllExamples.ra)))) 0)
+  /\ snd (impl_step_proj StepExamples.w_tree StepRemoveAllExamples.ra) = SOk
+  /\ f_heap (w_fs (fst (impl_step_proj StepExamples.w_tree StepRemoveAllExamples.ra)))
+     <> f_heap (sw_fs (fst (spec_step true StepExamples.sw_tree StepRemoveAllExamples.ra))).
+Proof.
+  split; [exact StepRemoveAllExamples.ra_instance|].
+  split; [exact StepRemoveAllExamples.ra_answer|exact StepRemoveAllExamples.ra_heaps_differ].
+Qed.
